@@ -492,4 +492,6 @@ class RadialProfile(ProfileBase):
         """
         The raw data profile as a 1D `~numpy.ndarray`.
         """
-        return self._data_profile[1]
+        # apply the current normalization (see ``normalize``) so that
+        # ``unnormalize`` restores the raw values
+        return self._data_profile[1] / self.normalization_value
